@@ -292,7 +292,8 @@ def find_ranking(f):
     containing 'SUCCESSFUL' (possibly inside enumerate(...)) or a dict
     literal status -> rank."""
     found = []
-    for n in walk_local(f.node, include_root=False):
+    # (lambdas included: the ranking may sit in the key= of the reducer)
+    for n in ast.walk(f.node):
         if isinstance(n, (ast.Tuple, ast.List)) and len(n.elts) >= 4 and \
                 all(isinstance(e, ast.Constant) and isinstance(e.value, str)
                     for e in n.elts) and \
